@@ -116,6 +116,10 @@ func (u *Unit) call(s *State, c *ssa.CallCommon, instr *ssa.Call, k func(*State)
 	}
 	callee := c.StaticCallee()
 	u.atCall(s, name, args, site, pos)
+	if u.intrinsic(s, name, args, sig, instr) {
+		k(s)
+		return
+	}
 
 	// variadic expansion for lib contracts keyed by arity
 	if callee != nil && sig.Variadic() && len(c.Args) > 0 {
@@ -150,7 +154,10 @@ func (u *Unit) call(s *State, c *ssa.CallCommon, instr *ssa.Call, k func(*State)
 		return
 	}
 	if callee != nil && u.inModule(callee) {
-		if fc := u.p.contractFor(callee); fc != nil && fc.Opts["inline"] == "" && callee != u.fn {
+		if fc := u.p.contractFor(callee); fc != nil && fc.Opts["inline"] == "" {
+			if callee == u.fn {
+				u.recursionVariant(s, fc, callee, args, site, pos)
+			}
 			u.applyContract(s, fc, callee, name, args, sig, instr, site, pos, k)
 			return
 		}
@@ -407,7 +414,13 @@ func (u *Unit) applyContract(s *State, fc *FuncContract, callee *ssa.Function, n
 		extra["result"] = res[0]
 	}
 	for _, c := range fc.Clauses {
-		if c.Kind == "ensures" || (c.Kind == "assume" && fc.Lib) {
+		if c.Kind == "ensures" || c.Kind == "ensures-bounded" || (c.Kind == "assume" && fc.Lib) {
+			if c.Kind == "ensures-bounded" {
+				u.usedBounded[c.Label+" ("+short+")"] = c.Callee
+			}
+			if !fc.Lib && c.Kind == "ensures" {
+				u.usedEnsures[labelWithFn(c.Label, short)] = true
+			}
 			if !ghostsKnown(c.Expr, s) {
 				continue // mentions ghost state private to the callee
 			}
@@ -631,4 +644,67 @@ func ghostsKnown(expr string, s *State) bool {
 		}
 	}
 	return true
+}
+
+// intrinsic models a few library functions whose effect is a precise update of modelled memory.
+func (u *Unit) intrinsic(s *State, name string, args []Term, sig *types.Signature, instr *ssa.Call) bool {
+	switch name {
+	case "(net/url.Values).Set":
+		// v[key] = []string{value}
+		m, key, val := args[0], args[1], args[2]
+		r := u.newAddr(s, "arr")
+		u.store(s, AddrElem{Term{S: r.S, Sort: "Int"}, Term{S: "0", Sort: "Int"}, types.Typ[types.String]}, val)
+		sl := fmt.Sprintf("(mk_slice %s 0 1 1)", r.S)
+		vals, pres := u.mheap(s, "String", "Slice")
+		nv := u.define(s, "map", Term{S: fmt.Sprintf("(store %s %s (store (select %s %s) %s %s))", vals.S, m.S, vals.S, m.S, key.S, sl), Sort: vals.Sort})
+		np := u.define(s, "mapdom", Term{S: fmt.Sprintf("(store %s %s (store (select %s %s) %s true))", pres.S, m.S, pres.S, m.S, key.S), Sort: pres.Sort})
+		s.heaps["m:String:Slice"] = nv
+		s.heaps["mp:String:Slice"] = np
+		u.usedLib[name+" (engine intrinsic: map update)"] = true
+		return true
+	}
+	return false
+}
+
+// recursionVariant: a direct recursive call must decrease the contract's `decreases` expression
+// (a non-negative integer over the parameters); without such a clause termination is not established.
+func (u *Unit) recursionVariant(s *State, fc *FuncContract, callee *ssa.Function, args []Term, site ssa.Instruction, pos token.Pos) {
+	if !fc.Sweep {
+		return
+	}
+	ord := 0
+	if site != nil {
+		ord = u.ordinal(site)
+	}
+	found := false
+	for _, c := range fc.Clauses {
+		if c.Kind != "decreases" || c.Loop != 0 {
+			continue
+		}
+		found = true
+		names := map[string]Term{}
+		for i, p := range callee.Params {
+			if i < len(args) {
+				names[p.Name()] = args[i]
+			}
+		}
+		callEnv := &Env{u: u, s: s, old: s, names: names, pkg: callee.Pkg}
+		nv, err := callEnv.term(c.Expr)
+		if err != nil {
+			panic(abortUnit{fmt.Sprintf("%s:%d: %v", c.File, c.Line, err)})
+		}
+		entryEnv := u.bodyEnv(u.entry, u.fn)
+		entryEnv.paramsEntry = true
+		ov, err := entryEnv.term(c.Expr)
+		if err != nil {
+			panic(abortUnit{fmt.Sprintf("%s:%d: %v", c.File, c.Line, err)})
+		}
+		n := fmt.Sprintf("%s.recursion#%d", labelWithFn(c.Label, u.fnShort(u.fn)), ord)
+		u.oblige(s, n, c.Props, "decreases", fmt.Sprintf("(and (<= 0 %s) (< %s %s))", nv.S, nv.S, ov.S), pos)
+	}
+	if !found {
+		n := fmt.Sprintf("C19.%s.terminates.recursion#%d", u.fnShort(u.fn), ord)
+		u.oblige(s, n, []string{"C19"}, "decreases", "false", pos)
+		s.pc = s.pc[:len(s.pc)-1] // do not assume false afterwards
+	}
 }
